@@ -211,3 +211,70 @@ SCENARIOS.append(Scenario("C09.rules.MaterializeReshapeShape", s_materialize_res
                           [("onnxscript/rewriter/rules/common/_materialize_reshape_shape.py", "MaterializeReshapeShape.check"),
                            ("onnxscript/rewriter/rules/common/_materialize_reshape_shape.py", "MaterializeReshapeShape.rewrite")],
                           kind="bounded", bound="output rank <= 3; " + BOUND, trusted=TRUST + ["ONNX Reshape: -1 is inferred from the element count; allowzero=1 forbids 0 together with -1"]))
+
+
+def s_collapse_slice(ctx):
+    """_collapse_slices._check_if_redundant_slice: Slice(data, starts, ends, axes, steps) -> Identity(data) only if the
+    slice selects the whole axis for every binding: single axis, step 1, start 0, and end >= the (static) extent or
+    end = INT64_MAX.  ONNX Slice clamping from theories/slicing.py."""
+    import onnx_ir as ir
+    from onnxscript.rewriter.rules.common import _collapse_slices as mod
+    from theories import slicing as T
+    I = Interp(ctx)
+    W = World(I)
+    static, rt = choose_shape(ctx, W, "data", max_rank=2, kinds=["int", "N", "unknown"])
+    data = W.value("data", dims=static, rt=rt, dtype=ir.DataType.FLOAT)
+    vals = {}
+
+    def operand(tag, fixed=None):
+        known = ctx.choose(2, f"{tag} constant") == 0
+        n = 1 + ctx.choose(2, f"{tag} has two elements")
+        items = []
+        for i in range(n):
+            if fixed is not None:
+                items.append(fixed)
+            else:
+                t = ctx.int(f"{tag}{i}")
+                ctx.witness[f"{tag}{i}"] = t
+                items.append(SInt(t))
+        vals[tag] = (known, items)
+        return W.value(tag, dims=[n], rt=[], dtype=ir.DataType.INT64, const=(W.tensor(items, ir.DataType.INT64) if known else None), initializer=known)
+    starts, ends, steps = operand("start"), operand("end"), operand("step")
+    axis = [-2, -1, 0, 1][ctx.choose(4, "axis")]
+    axes = operand("axis", fixed=axis)
+    try:
+        r = I.run_closure(I.closure_of(mod._check_if_redundant_slice), [None, data, starts, ends, axes, steps], {})
+        fired = I.truth(r)
+    except PyRaise as e:
+        rank = len(rt)
+        ctx.check("C04.rules.collapse_slice.check_raises_only_for_an_axis_outside_the_annotated_rank", static is not None and not (-rank <= axis < rank), CL04)
+        return
+    if not fired:
+        ctx.cover("collapse_slice.check_failed")
+        return
+    ok = all(vals[k][0] and len(vals[k][1]) == 1 for k in ("start", "end", "step", "axis"))
+    ctx.check("C05.rules.collapse_slice.fires_only_for_constant_single_axis_slices", ok, CL09)
+    if not ok:
+        return
+    s, e, st = (term(vals[k][1][0]) for k in ("start", "end", "step"))
+    ctx.check("C05.rules.collapse_slice.fires_only_for_start_0_and_step_1", z3.And(s == 0, st == 1), CL09)
+    rank = len(rt)
+    if static is None:
+        # rank unknown to the rule: the runtime extent of the sliced axis is arbitrary
+        d = ctx.int("extent")
+        ctx.assume(d >= 0)
+    else:
+        if not (-rank <= axis < rank):
+            ctx.cover("collapse_slice: axis outside the rank (not a valid model)")
+            return
+        d = rt[axis]
+    ctx.assume(d <= T.INT64_MAX)   # a tensor extent is an int64
+    first, stop = T.onnx_norm(d, s, e, st)
+    whole = z3.Or(d == 0, z3.And(first == 0, stop == d))
+    ctx.check("C09.rules.collapse_slice.selects_the_whole_axis_for_every_binding", z3.Implies(z3.And(s == 0, st == 1), whole), CL09)
+    ctx.check("C05.rules.collapse_slice.selects_the_whole_axis_for_every_binding", z3.Implies(z3.And(s == 0, st == 1), whole), CL09)
+
+
+SCENARIOS.append(Scenario("C09.rules.collapse_slice", s_collapse_slice,
+                          [("onnxscript/rewriter/rules/common/_collapse_slices.py", "_check_if_redundant_slice")], kind="bounded",
+                          bound="data rank <= 2, starts/ends/axes/steps with 1-2 elements, axis in -2..1; start/end/step values unbounded", trusted=TRUST, max_paths=40000))
